@@ -16,7 +16,11 @@ EvOK(ev) ==
       [] ev.e = "enter" ->
             LET d == Decision(ev.res, ev.n, ev.t) IN
             IF d.pass THEN ev.r = "pass"
-            ELSE ev.r = "block" /\ ev.bt = "flow" /\ ev.rule \in d.culprits
+            ELSE /\ ev.r = "block" /\ ev.bt = "flow"
+                 \* the reported rule is one that does not fit: named by its id, or (an equal rule reloaded
+                 \* under another id keeps its controller and its first id) by the description it was built from
+                 /\ \/ ev.rule \in d.culprits
+                    \/ Has(ev, "rule_rec") /\ \E c \in d.bad : SameRule(ev.rule_rec, c)
       [] ev.e = "exit"  -> ~Has(ev, "panic")
       [] ev.e = "adv"   -> TRUE
       [] OTHER -> FALSE
